@@ -1,5 +1,17 @@
 /* prelude for generated C: arithmetic macros (bit-precise or uninterpreted) */
 #include <stddef.h>
+#ifdef VERIF_NATIVE_C
+/* native compilation of the generated C (translation validation): verifier primitives vanish */
+#define __CPROVER_assert(c, m) ((void)0)
+#define __CPROVER_assume(c) ((void)0)
+#define __CPROVER_requires(...)
+#define __CPROVER_ensures(...)
+#define __CPROVER_assigns(...)
+#define __CPROVER_frees(...)
+#define __CPROVER_loop_invariant(...)
+#define __CPROVER_decreases(...)
+#define __CPROVER_havoc_object(x) ((void)0)
+#endif
 /* element-level bounds obligation for fixed-size arrays inside structs */
 #define VERIF_IDX(i, n) ({ __typeof__(i) _vi = (i); __CPROVER_assert(_vi >= 0 && (unsigned long)_vi < (n), "array index within bounds of fixed-size array"); _vi; })
 #ifdef VERIF_UF
